@@ -117,6 +117,12 @@ func c07Insert(text string, p c07Place, comment string) (string, error) {
 			return "", fmt.Errorf("line %d out of range", p.Line)
 		}
 		lines[p.Line-1] += " " + comment
+	case "above0":
+		// F11: at column 0, directly above the (indented) list item
+		if p.Line < 1 || p.Line > len(lines) {
+			return "", fmt.Errorf("line %d out of range", p.Line)
+		}
+		lines = append(lines[:p.Line-1], append([]string{comment}, lines[p.Line-1:]...)...)
 	case "above", "between":
 		if p.Line < 1 || p.Line > len(lines) {
 			return "", fmt.Errorf("line %d out of range", p.Line)
@@ -134,9 +140,25 @@ func c07Insert(text string, p c07Place, comment string) (string, error) {
 }
 
 // c07Lint runs the real pipeline on the file and projects its reports.
-func c07Lint(dir, cfgText, content string) (reps []c07Rep, rules [][2]int, checks [][]string, proj []string, err error) {
+// owners of the rules of the last c07Lint call of this goroutine are returned through c07LintOwners
+func c07LintOwners(dir, cfgText, content string) (reps []c07Rep, rules [][2]int, checks [][]string, proj []string, owners []string, err error) {
 	res := pipe.Lint(dir, map[string][]byte{"rules/r.yml": []byte(content)}, []string{"rules/r.yml"},
 		pipe.Opts{Strict: true, Config: cfgText, Command: "lint"})
+	reps, rules, checks, proj, err = c07Project(dir, res)
+	for _, e := range res.Entries {
+		if e.Kind == "alerting" || e.Kind == "recording" {
+			owners = append(owners, e.Owner)
+		}
+	}
+	return
+}
+
+func c07Lint(dir, cfgText, content string) (reps []c07Rep, rules [][2]int, checks [][]string, proj []string, err error) {
+	reps, rules, checks, proj, _, err = c07LintOwners(dir, cfgText, content)
+	return
+}
+
+func c07Project(dir string, res pipe.Result) (reps []c07Rep, rules [][2]int, checks [][]string, proj []string, err error) {
 	if res.Panic != "" || res.FindErr != "" || res.CfgErr != "" {
 		return nil, nil, nil, nil, fmt.Errorf("pipeline failed: panic=%q find=%q cfg=%q", tail(res.Panic, 600), res.FindErr, res.CfgErr)
 	}
@@ -363,7 +385,7 @@ func init() {
 					return
 				}
 				content = c07Eol(content, c.Eol)
-				reps, rules, checks, proj, err := c07Lint(dir, cfgText, content)
+				reps, rules, checks, proj, owners, err := c07LintOwners(dir, cfgText, content)
 				if err != nil {
 					errs[j] = fmt.Errorf("case %d (%s at %v): %v", ci+1, c.Text, c.Place, err)
 					return
@@ -388,10 +410,13 @@ func init() {
 					o = 2
 				}
 				crules, cl := []int{t, o}, [][]string{checks[t-1], checks[o-1]}
+				if c.Place.At == "above0" && t > 1 {
+					crules, cl = append(crules, t-1), append(cl, checks[t-2])
+				}
 				var m map[string]json.RawMessage
 				json.Unmarshal(in[ci], &m)
 				results[j] = map[string]any{"ev": "Run", "id": ci + 1, "scen": si + 1, "rule": c.Rule, "cmt": m["cmt"], "place": m["place"],
-					"prior": c.Prior, "pplace": m["pplace"], "eplace": m["eplace"], "basereports": basereps, "eol": c.Eol, "text": c.Text, "reports": reps, "rules": rules, "crules": crules, "checks": cl, "bin": sampled, "proj": proj, "binproj": binproj}
+					"prior": c.Prior, "pcmt": m["pcmt"], "owners": owners, "pplace": m["pplace"], "eplace": m["eplace"], "basereports": basereps, "eol": c.Eol, "text": c.Text, "reports": reps, "rules": rules, "crules": crules, "checks": cl, "bin": sampled, "proj": proj, "binproj": binproj}
 			})
 			for _, e := range errs {
 				if e != nil {
